@@ -397,7 +397,10 @@ partial def fit (ctx : Ctx) : Nat → Chk → Graph × Rng → Obj × (Graph × 
           | some .refArray => (mkArr [.ref 1 0], (g, r))
           | _ => let (x, r) := genObj 1 r; (x, (g, r))
         | .array _ e s =>
-          let (n, r) := match s with | some k => (k, r) | none => r.nat 3
+          -- a sized array is mostly fitted exactly; one time in four it is one element too long or too short
+          let (n, r) := match s with
+            | some k => let (m, r) := r.nat 8; ((if m == 0 then k + 1 else if m == 1 then k - 1 else k), r)
+            | none => r.nat 3
           let (xs, st) := (List.range n).foldl (fun (acc : List Obj × (Graph × Rng)) _ =>
             let (x, st) := fit ctx d e acc.2; (x :: acc.1, st)) ([], (g, r))
           (mkArr xs.reverse, st)
